@@ -366,9 +366,9 @@ impl Scenario for C10 {
         // drop receptions: halves, quarters, singles
         let n = p.receptions.len();
         let mut chunk = n / 2;
-        while chunk >= 1 {
+        while chunk >= 1 && out.len() * (n + 1) < 3_000_000 {
             let mut i = 0;
-            while i < n {
+            while i < n && out.len() * (n + 1) < 3_000_000 {
                 let mut q = p.clone();
                 let hi = (i + chunk).min(n);
                 q.receptions.drain(i..hi);
@@ -1149,9 +1149,9 @@ impl Scenario for Decode1090Proc {
         }
         let n = p.receptions.len();
         let mut chunk = n / 2;
-        while chunk >= 1 {
+        while chunk >= 1 && out.len() * (n + 1) < 3_000_000 {
             let mut i = 0;
-            while i < n {
+            while i < n && out.len() * (n + 1) < 3_000_000 {
                 let mut q = p.clone();
                 q.receptions.drain(i..(i + chunk).min(n));
                 for jk in q.junk.iter_mut() {
@@ -1187,6 +1187,34 @@ impl Scenario for Decode1090Proc {
     fn sample(&self, p: &C10Plan) -> serde_json::Value {
         C10.sample(p)
     }
+}
+
+/// The executable reference model of the property: groups keyed by frame, a
+/// group opened at stamp t expires at t + window, and every arrival first joins
+/// (or opens) its group and then closes every group whose expiry is not after
+/// the arrival's own stamp. Returns the groups closed so far and the ones still
+/// open, each as the list of reception ids in arrival order.
+pub fn reference_model(arrivals: &[(u32, usize, u64)], w: u64) -> (Vec<Vec<u32>>, Vec<Vec<u32>>) {
+    let mut open: BTreeMap<usize, Vec<u32>> = BTreeMap::new();
+    let mut heap: std::collections::BinaryHeap<std::cmp::Reverse<(u64, usize)>> = std::collections::BinaryHeap::new();
+    let mut closed: Vec<Vec<u32>> = Vec::new();
+    for &(id, frame, ms) in arrivals {
+        let e = open.entry(frame).or_default();
+        e.push(id);
+        if e.len() == 1 {
+            heap.push(std::cmp::Reverse((ms + w, frame)));
+        }
+        while let Some(std::cmp::Reverse((exp, f))) = heap.peek().copied() {
+            if exp > ms {
+                break;
+            }
+            heap.pop();
+            if let Some(ids) = open.remove(&f) {
+                closed.push(ids);
+            }
+        }
+    }
+    (closed, open.into_values().collect())
 }
 
 pub fn execute_decode1090(plan: &C10Plan) -> Outcome<C10Plan> {
@@ -1382,6 +1410,24 @@ pub fn execute_decode1090(plan: &C10Plan) -> Outcome<C10Plan> {
         }
     } else {
         out.count("nonmonotone_arrival", 1);
+    }
+    // grouping against the reference model (at end of file every open group is printed)
+    if o.status.success() {
+        let arr: Vec<(u32, usize, u64)> = plan.receptions.iter().map(|r| (r.id, r.frame as usize % frames.len(), ms_of(r.ts_us))).collect();
+        let (closed, open) = reference_model(&arr, w);
+        let mut want: Vec<Vec<u32>> = closed.into_iter().chain(open.into_iter()).filter(|g| decodable[by_id[&g[0]].frame as usize % frames.len()]).collect();
+        let mut got: Vec<Vec<u32>> = recs.iter().map(|e| e.ids.clone()).collect();
+        want.sort();
+        got.sort();
+        if want != got {
+            let extra = got.iter().find(|g| !want.contains(g)).cloned().unwrap_or_default();
+            let expect = want.iter().find(|g| g.first() == extra.first()).cloned().unwrap_or_default();
+            set(Violation::new(
+                "c10.5-timeliness",
+                if monotone { "group-differs-from-window" } else { "group-differs-from-reference-model" },
+                format!("decode1090 printed a record with receptions {:?}; the window opened by reception {} (window {} ms) closes with receptions {:?}", extra.iter().take(12).collect::<Vec<_>>(), extra.first().copied().unwrap_or(0), w, expect.iter().take(12).collect::<Vec<_>>()),
+            ));
+        }
     }
     // open groups at end of file (flush path)
     if let Some(last) = stamps.iter().max() {
